@@ -149,8 +149,20 @@ fn seq_impl(diag: bool, tokens: &[&str], probes_only: bool) -> Option<String> {
 /// The ranges of the diagnostics the REAL broker publishes (document::notify -> create_diagnostic, messages formatted)
 /// when `text` is opened by a client that announced diagnostics: `l:c-l:c;` per diagnostic, in order.
 pub fn published_ranges(text: &str) -> Result<Vec<(u64, u64, u64, u64)>, String> {
-    let tok = format!("O0={}", if text.is_empty() { "-".to_string() } else { hex_str(text) });
-    let out = seq_impl(true, &[tok.as_str()], false).ok_or("bad-case".to_string())?;
+    published_ranges_after(text, None)
+}
+
+/// ... after a previous life of the same URI: `prev` opened first, then either closed and re-opened with `text`
+/// (`reopen`) or replaced by a full-text change. The LAST publication is returned.
+pub fn published_ranges_after(text: &str, prev: Option<(&str, bool)>) -> Result<Vec<(u64, u64, u64, u64)>, String> {
+    let hx = |t: &str| if t.is_empty() { "-".to_string() } else { hex_str(t) };
+    let toks: Vec<String> = match prev {
+        None => vec![format!("O0={}", hx(text))],
+        Some((p, true)) => vec![format!("O0={}", hx(p)), "X0".to_string(), format!("O0={}", hx(text))],
+        Some((p, false)) => vec![format!("O0={}", hx(p)), format!("C0=F:{}", hx(text))],
+    };
+    let refs: Vec<&str> = toks.iter().map(|s| s.as_str()).collect();
+    let out = seq_impl(true, &refs, false).ok_or("bad-case".to_string())?;
     if out.starts_with("PANIC") {
         return Err(out);
     }
@@ -172,9 +184,16 @@ pub fn published_ranges(text: &str) -> Result<Vec<(u64, u64, u64, u64)>, String>
 
 pub fn run(op: &str, args: &[&str]) -> Option<String> {
     match op {
-        "PUB" => {
+        "PUB" | "JUDGEPUB" => {
             let text = if args.first()? == &"-" { String::new() } else { unhex_str(args.first()?)? };
-            Some(match published_ranges(&text) {
+            // optional history: PUB <text> <previous text> <X|C>
+            let prev_text = match args.get(1) {
+                Some(&"-") => Some(String::new()),
+                Some(h) => Some(unhex_str(h)?),
+                None => None,
+            };
+            let reopen = args.get(2).map_or(true, |m| *m == "X");
+            Some(match published_ranges_after(&text, prev_text.as_deref().map(|p| (p, reopen))) {
                 Ok(v) => v.iter().map(|(a, b, c, d)| format!("{}:{}-{}:{};", a, b, c, d)).collect::<String>(),
                 Err(e) => e,
             })
